@@ -7,6 +7,7 @@ godebug asynctimerchan=1
 require (
 	github.com/Comcast/rulio v0.0.0
 	github.com/anishathalye/porcupine v1.3.0
+	github.com/gorhill/cronexpr v0.0.0-20180427100037-88b0669f7d75
 	pgregory.net/rapid v1.3.0
 )
 
